@@ -31,11 +31,11 @@ theorem C28_length_exact (m : BackendMsg) (h : wfContent m) :
   | readyForQuery s => rfl
   | rowDescription fs =>
     simp only [lenAsCoded, payload, List.length_append, be16_length]
-    rw [putFields_length]
+    rw [putFields_length]; omega
   | dataRow vs =>
     simp only [lenAsCoded, payload, List.length_append, be16_length]
-    rw [putValues_length]
-  | commandComplete t => simp [lenAsCoded, payload, putCString]
+    rw [putValues_length]; omega
+  | commandComplete t => simp [lenAsCoded, payload, putCString]; omega
   | errorResponse fs =>
     simp only [lenAsCoded, noticeLen, payload, List.length_append, List.length_cons, List.length_nil]
     rw [putNoticeFields_length]; omega
@@ -125,12 +125,10 @@ theorem parseBody_payload (m : BackendMsg) (h : wfContent m) :
     rw [List.append_nil] at h1
     simp [parseBody, tyByte, payload, h1, done]
   | errorResponse fs =>
-    have h1 := pNoticeFields_put fs [] ((putNoticeFields fs ++ [0]).length + 1) h
-      (by simp only [List.length_append, List.length_cons, List.length_nil]; omega)
+    have h1 := pNoticeFields_put fs [] ((putNoticeFields fs).length + 1 + 1) h (by omega)
     simp [parseBody, tyByte, payload, h1, done]
   | noticeResponse fs =>
-    have h1 := pNoticeFields_put fs [] ((putNoticeFields fs ++ [0]).length + 1) h
-      (by simp only [List.length_append, List.length_cons, List.length_nil]; omega)
+    have h1 := pNoticeFields_put fs [] ((putNoticeFields fs).length + 1 + 1) h (by omega)
     simp [parseBody, tyByte, payload, h1, done]
   | emptyQueryResponse => decide
 
